@@ -232,6 +232,13 @@ func RunCase(seed uint64, idx int, p *Profile, o *Opts, st *Stats) (cr *CaseResu
 			reg[k] = m.Obs[k].Registered
 		}
 		nH := len(d.H)
+		statsBefore := ""
+		if x.Panic && op.K == KMisuse && strings.HasPrefix(MisuseTable[op.Slot].Class, "locked") {
+			// a structural call on a locked world "panics without effect" (C07): that includes what Stats() shows -
+			// archetypes, tables, capacities, memory, registries. (Calls rejected for their arguments are only required
+			// to leave entities, components and relations alone: the library may have created an empty archetype.)
+			statsBefore = RenderStats(d.W.Stats())
+		}
 		res := d.Exec(op, x, i)
 		var resB Result
 		if twin != nil {
@@ -289,8 +296,11 @@ func RunCase(seed uint64, idx int, p *Profile, o *Opts, st *Stats) (cr *CaseResu
 		}
 		if x.Panic && res.Panicked {
 			// a rejected call must not have consumed an entity ID
-			if used := d.W.Stats().Entities.Used; used != m.NAlive {
+			sa := d.W.Stats()
+			if used := sa.Entities.Used; used != m.NAlive {
 				d.viol("C10", "misuse-effect", "after rejected %s: Stats().Entities.Used=%d, model alive %d", MisuseTable[op.Slot].Name, used, m.NAlive)
+			} else if after := RenderStats(sa); statsBefore != "" && after != statsBefore {
+				d.viol("C07", "locked-call-effect", "rejected %s changed what Stats() reports:\n--- before\n%s--- after\n%s", MisuseTable[op.Slot].Name, statsBefore, after)
 			}
 		}
 		if !stop {
